@@ -232,6 +232,12 @@ Definition id_granted (c : case) (r : response) : list string :=
            if negb (access_wire (r_access r) =s "") && negb (the_assert c)
            then filter (fun s => negb (string_in s core_userinfo_scopes)) s0 else s0.
 
+(* [ic] (and the claims of a JWT access token) are the claims AS THE LIBRARY'S OWN
+   DECODER READS THEM from the signed payload (json.Unmarshal into
+   oidc.IDTokenClaims / oidc.AccessTokenClaims, which is what the verifiers
+   return): members are matched case-insensitively and the last matching key of
+   the document wins, so a custom claim that shadows a registered one shows up
+   here as a wrong issuer / subject / audience ... *)
 Definition id_token_ok (c : case) (r : response) (k : checks) (j : jws_desc) (ic : idclaims) : bool :=
   let rq := cs_req c in
   let granted := id_granted c r in
@@ -263,7 +269,8 @@ Definition id_token_ok (c : case) (r : response) (k : checks) (j : jws_desc) (ic
   && ((i_phone ic =s "") || string_in "phone" granted)
   && (negb (i_phone_verified ic) || string_in "phone" granted)
   && ((i_addr ic =s "") || string_in "address" granted)
-  && match i_extra ic with [] => true | _ => false end.
+  (* any other claim is a custom claim of a granted custom:<name> scope *)
+  && forallb (fun e => string_in ("custom:" ++ fst e)%string granted) (i_extra ic).
 
 Definition stored_id (k : checks) : string :=
   match k_stored k with Some (i, _, _) => i | None => "" end.
